@@ -3,12 +3,14 @@ from tools import atom, lat, vlib
 
 
 class C06(vlib.Spec):
-    model_vo = ["theories/Lattice/Atom.vo"]
+    model_vo = ["theories/Lattice/Atom.vo", "theories/Lattice/AtomUF.vo"]
     props_vo = "theories/Props/C06.vo"
     theorems = ["C06_atoms_nonbot", "C06_empty_iff_bot", "C06_remerge", "C06_default_is_bot",
-                "C06_remerge_into", "C06_atoms_lub", "C06_holds_b_sound"]
+                "C06_remerge_into", "C06_atoms_lub", "C06_holds_b_sound",
+                "C06_uf_atoms_nonbot", "C06_uf_empty_iff_bot", "C06_uf_remerge", "C06_uf_remerge_partition",
+                "C06_uf_remerge_into"]
     crate, group, binary = "h_atom", "light", "h_atom"
-    imports = "From HV Require Import Lattice.Univ Lattice.Atom."
+    imports = "From HV Require Import Lattice.AtomUF.\nFrom HV Require Import Lattice.Univ Lattice.Atom."
     trusted_base = ["coqc 8.16.1 kernel (vm_compute used for case evaluation only)",
                     "hand-written Gallina model coq/theories/Lattice/{Model,Univ,Atom}.v",
                     "correspondence harness harness/h_atom + tools/atom.py + tools/lat.py"]
@@ -17,9 +19,11 @@ class C06(vlib.Spec):
                    "the theorems hold for every merge order (Permutation)",
                    "atoms (singleton set/map, WithBot/WithTop of atoms) are modelled in the carrier of the "
                    "lattice they come from; the heterogeneous Merge<Atom> is the carrier's merge",
-                   "UnionFind's Atomize impl is not covered here (union-find engine)"]
+                   "UnionFind: model of union_find.rs is e1-uf-tomb's Lattice/UF.v; partitions observed through "
+                   "same() on items 0..7; inputs are forests built with UnionFind::new (parent <= key)"]
     rule = ("one case = (type, value a, accumulator acc) for 24 registered atomizable Rust types; a random / "
-            "sprinkled with bottom-valued entries and Some(bottom) / bottom-but-not-Default; "
+            "sprinkled with bottom-valued entries and Some(bottom) / bottom-but-not-Default; plus UnionFind<HashMap/BTreeMap> "
+            "forests over items 0..7; "
             "non-trivial = a has at least one atom, or a is bottom without being Default")
 
     def types(self):
@@ -28,10 +32,10 @@ class C06(vlib.Spec):
         return self._types
 
     def gen(self, rng, tier, n):
-        return atom.gen_cases(rng, self.types(), tier, n)
+        return atom.gen_cases(rng, self.types(), tier, n) + atom.gen_uf_cases(rng, tier, max(40, n // 8))
 
     def n_cases(self, tier):
-        return 900 if tier == "quick" else 8000
+        return 700 if tier == "quick" else 8000
 
     def to_coq(self, case, res):
         return atom.case_term(case, res)
@@ -42,6 +46,8 @@ class C06(vlib.Spec):
     def nontrivial(self, case, res):
         if "atoms" not in res:
             return True
+        if case.get("k") == "uf":
+            return len(res["atoms"]) > 0 or len(case["a"]) > 0
         return len(res["atoms"]) > 0 or case["a"] != res["dflt"]
 
     def distribution(self, cases, results):
